@@ -63,20 +63,21 @@ pub fn c06_zero_rows() {
 }
 
 /// C06.2: the from-scratch hashes are XOR-linear in one piece, with the real table: adding piece x to a
-/// board (kings + up to two more pieces of the same kind) XORs exactly key(x) into the position hash,
-/// and into the pawn hash iff x is a pawn.
-pub fn c06_linear(k: u8) {
+/// board (kings + `nbase` optional further pieces of the same kind) XORs exactly key(x) into the position
+/// hash, and into the pawn hash iff x is a pawn.
+pub fn c06_linear(k: u8, nbase: usize) {
     let wk = sym::sq();
     let bk = sym::sq();
     sym::assume(wk != bk);
     let mut a = any_piece(k, k, wk, bk);
     a.0 = sym::bool();
     let mut b = any_piece(k, k, wk, bk);
-    b.0 = sym::bool();
+    b.0 = if nbase >= 2 { sym::bool() } else { false };
     let x = any_piece(k, k, wk, bk);
     sym::assume((!a.0 || a.3 != x.3) && (!b.0 || b.3 != x.3) && (!a.0 || !b.0 || a.3 != b.3));
     let (turn, r, ep) = flags();
-    cov!(a.0 && b.0 && a.2 == x.2 && b.2 == x.2, "three pieces of one kind and colour");
+    cov!(a.0 && a.2 == x.2, "two pieces of one kind and colour");
+    cov!(nbase < 2 || (a.0 && b.0 && a.2 == x.2 && b.2 == x.2), "three pieces of one kind and colour");
     let base = board(wk, bk, &[a, b], turn, r, ep, 0, 1);
     let full = board(wk, bk, &[a, b, x], turn, r, ep, 0, 1);
     let key = verif::zobrist_piece_key(x.1 as u64, x.3 as u32, x.2 as u32);
@@ -86,14 +87,14 @@ pub fn c06_linear(k: u8) {
 }
 
 /// C06.3: both hashes ignore the clocks.
-pub fn c06_fields() {
+pub fn c06_fields(two: bool) {
     let wk = sym::sq();
     let bk = sym::sq();
     sym::assume(wk != bk);
     let mut a = any_piece(P, Q, wk, bk);
     a.0 = sym::bool();
     let mut b = any_piece(P, Q, wk, bk);
-    b.0 = sym::bool();
+    b.0 = if two { sym::bool() } else { false };
     sym::assume(!a.0 || !b.0 || a.3 != b.3);
     let (turn, r, ep) = flags();
     let (h1, f1, h2, f2) = (sym::u32(), sym::u32(), sym::u32(), sym::u32());
